@@ -176,7 +176,7 @@ def case_explicit(ctx, p):
             return
         want = F_ref(table, ops, cell, spec, h, disper)
         err = abs(got - want)
-        mon.check(name, err <= tol, residual=err / scale, observed=got, expected=want,
+        mon.check(name, err <= tol, residual=err / scale, tol=tol / scale, observed=got, expected=want,
                   detail=None if err <= tol else {"group": key, "setting": o.cell_choice, "h": h, "cell": cell, "atoms": spec, "dispersion": disper})
         if o.nsymop > 1 or any(a["multi"] < o.nsymop for a in spec):
             mon.nontriv(key, spec[0]["pos"], h)
